@@ -3,6 +3,7 @@
 package db
 
 import (
+	"errors"
 	"context"
 	"encoding/json"
 	"fmt"
@@ -261,6 +262,19 @@ func c07dbRound(t *testing.T, run *vlib.Run, round int) {
 						outcomes["resync-regenerate-"+verifErrClass(err)]++
 					}
 					amu.Unlock()
+				case kind == 8 && wr.Chance(1, 2): // role delete (marker with a sequence) or purge (no sequence needed); the role is re-created by the principal updates
+					purge := wr.Chance(1, 3)
+					err := db.DeleteRole(ctx, "r1", purge)
+					amu.Lock()
+					switch {
+					case err == nil:
+						outcomes[fmt.Sprintf("role-delete-purge=%v-ok", purge)]++
+					case errors.Is(err, base.ErrNotFound):
+						outcomes["role-delete-not-found"]++
+					default:
+						outcomes[fmt.Sprintf("role-delete-purge=%v-", purge)+verifErrClass(err)]++
+					}
+					amu.Unlock()
 				case kind == 6: // delete
 					id := vlib.Pick(wr, docs)
 					cur, gerr := collection.GetDocument(ctx, id, DocUnmarshalSync)
@@ -343,11 +357,63 @@ func c07dbRound(t *testing.T, run *vlib.Run, round int) {
 		for i := 1; i < len(seqs); i++ {
 			if isPrincipalKey(k) {
 				if seqs[i] < seqs[i-1] {
-					run.Violation("increasing", "C07|db|principal-version-sequence-decreased", fmt.Sprintf("%s committed sequences %v", k, seqs), wit)
+					// which kind of version carries the lower number?
+					kind := "update"
+					for _, op := range log {
+						if op.DS+"/"+op.Key != k || !op.Applied {
+							continue
+						}
+						var pv struct {
+							Sequence uint64 `json:"sequence"`
+							Deleted  bool   `json:"deleted"`
+						}
+						if json.Unmarshal(op.Value, &pv) == nil && pv.Sequence == seqs[i] && pv.Deleted {
+							kind = "role-delete-marker"
+						}
+					}
+					sigx := "C07|db|principal-version-sequence-decreased"
+					if kind != "update" {
+						sigx += "|version=" + kind
+					}
+					run.Violation("increasing", sigx, fmt.Sprintf("%s committed sequences %v (the version carrying %d is a %s)", k, seqs, seqs[i], kind), wit)
 					break
 				}
 			} else if seqs[i] <= seqs[i-1] {
-				run.Violation("increasing", "C07|db|document-version-sequence-not-greater-than-replaced", fmt.Sprintf("%s committed sequences %v", k, seqs), wit)
+				// the committed versions of this key with the CAS each was computed from: a version whose CasIn is not the CasOut of
+				// the version before it was accepted by the store although it was computed from an older state
+				var chain []string
+				staleResurrection := false
+				type cv struct {
+					in, out, seq uint64
+					res      bool
+					kind     string
+				}
+				var cvs []cv
+				for _, op := range log {
+					if op.DS+"/"+op.Key != k || !op.Applied || !op.Mutating || op.CasOut == 0 {
+						continue
+					}
+					m, _ := verifParseSync(op.Xattrs[base.SyncXattrName])
+					cvs = append(cvs, cv{op.CasIn, op.CasOut, m.Sequence, op.PrevTombstone && !op.Deleted, op.Kind})
+				}
+				sort.Slice(cvs, func(a, b int) bool { return cvs[a].out < cvs[b].out })
+				for j, c := range cvs {
+					chain = append(chain, fmt.Sprintf("%s seq=%d casIn=%x casOut=%x resurrects=%v", c.kind, c.seq, c.in, c.out, c.res))
+					if j > 0 && c.kind == "WriteUpdateWithXattrs" && c.res && c.in != cvs[j-1].out {
+						staleResurrection = true
+					}
+				}
+				w2 := map[string]any{"versions_in_commit_order": chain}
+				for kk, vv := range wit {
+					w2[kk] = vv
+				}
+				if staleResurrection {
+					// the store accepted a resurrection computed from an older tombstone (rosmar / WriteResurrectionWithXattrs is an insert
+					// without compare-and-swap: the open C05 finding). The gateway relies on the store's guard; not decidable here.
+					run.Inconclusive("store accepted a resurrection computed against an older version (not CAS-guarded: open C05 finding)")
+					break
+				}
+				run.Violation("increasing", "C07|db|document-version-sequence-not-greater-than-replaced", fmt.Sprintf("%s committed sequences %v", k, seqs), w2)
 				break
 			}
 		}
